@@ -5507,9 +5507,13 @@ class State:
             )
             hole_card_statuses += (False,) * count
 
-            self._verify_cards_consumption(
-                set(hole_cards) - set(self.hole_cards[player_index]),
-            )
+            unheld_cards = list(hole_cards)
+
+            for card in self.hole_cards[player_index]:
+                if card in unheld_cards:
+                    unheld_cards.remove(card)
+
+            self._verify_cards_consumption(unheld_cards)
 
         if cards is None or hole_cards is None or hole_card_statuses is None:
             assert (
